@@ -187,6 +187,12 @@ func DecodeClaimsFromCBOR(buf []byte) (IClaims, error) {
 		return nil, err
 	}
 
+	// CBOR null / undefined unmarshal into a struct without error (leaving
+	// it untouched), so make sure that we were actually given a map.
+	if !isCBORMap(buf) {
+		return nil, errors.New("claims must be a CBOR map")
+	}
+
 	entry, ok := profilesRegister[selector.Profile]
 	if !ok {
 		return nil, fmt.Errorf("unknown profile: %q", selector.Profile)
@@ -199,6 +205,33 @@ func DecodeClaimsFromCBOR(buf []byte) (IClaims, error) {
 	}
 
 	return claims, nil
+}
+
+// isCBORMap returns true if the first data item in buf (ignoring any tags
+// that enclose it) is a CBOR map.
+func isCBORMap(buf []byte) bool {
+	for len(buf) > 0 {
+		majorType := buf[0] >> 5
+		if majorType != 6 { // not a tag
+			return majorType == 5
+		}
+
+		// skip the tag number
+		switch additionalInfo := buf[0] & 0x1f; {
+		case additionalInfo < 24:
+			buf = buf[1:]
+		case additionalInfo < 28:
+			skip := 1 + (1 << (additionalInfo - 24))
+			if len(buf) < skip {
+				return false
+			}
+			buf = buf[skip:]
+		default:
+			return false
+		}
+	}
+
+	return false
 }
 
 // Deprecated: use DecodeAndValidateClaimsFromJSON instead.
